@@ -29,8 +29,7 @@ TRUSTED = [
 PROPS = {
     "C01": dict(
         title="every task execution justified, exactly once",
-        theorems={NEXT: ["C01_offer_from_staged", "C01_no_offer_unless_running_or_remediation"],
-                  JOIN: ["C01_decision_is_criteria"]},
+        theorems={NEXT: ["C01_offer_from_staged", "C01_no_offer_unless_running_or_remediation"], JOIN: ["C07_ready_iff_satisfied"], HISTORY: ["C18_record_core_fixed"]},
         keys=["status", "sequence", "staged", "tasks"], offers="ids",
         prof=dict(p_items=0.0, p_retry=0.0, p_badexpr=0.0), hist=dict(p_fail=0.3, fixed_outcomes=True),
         monitor="C01", unproven=["global multiset equality with the prescribed executions (C01_global) is not proved; search only"],
@@ -46,47 +45,41 @@ PROPS = {
     ),
     "C03": dict(
         title="no stuck workflow",
-        theorems={STATUS: ["tbl_succeeded_doors_task", "tbl_failure_covered", "tbl_task_targets_have_events",
-                           "tbl_item_targets_have_events", "tbl_failed_request_total"],
-                  NEXT: ["C03_ready_entry_is_processed"]},
+        theorems={STATUS: ["tbl_succeeded_doors_task", "tbl_failure_covered", "tbl_task_targets_have_events", "tbl_item_targets_have_events", "tbl_failed_request_total"], ERRORS: ["C11_update_never_raises_expr"]},
         keys=["status", "staged", "sequence"], offers="ids",
         prof=dict(), hist=dict(p_pause=0.1, p_cancel=0.05, p_rerun=0.4, p_task_pause=0.05),
         monitor="C03", unproven=["C03_quiescent_resting (history invariant) is not proved; search only"],
     ),
     "C04": dict(
         title="terminal statuses are final",
-        theorems={STATUS: ["C04_failed_final", "C04_canceled_final", "C04_succeeded_final",
-                           "C04_report_keeps_terminal", "tbl_succeeded_wf"],
-                  NEXT: ["C04_no_offer_when_succeeded_or_canceled", "C04_failed_offers_only_run_on_fail",
-                         "C04_rejected_request_no_effect"]},
+        theorems={STATUS: ["C04_failed_final", "C04_canceled_final", "C04_succeeded_final", "C04_report_keeps_terminal", "tbl_succeeded_wf"], NEXT: ["C04_no_offer_when_succeeded_or_canceled", "C04_failed_offers_only_run_on_fail", "C04_rejected_request_no_effect", "tbl_valid_request_applies"]},
         keys=["status", "staged", "sequence", "tasks", "contexts", "routes"], offers="ids",
         prof=dict(), hist=dict(p_pause=0.05, p_cancel=0.05), monitor="C04", unproven=[],
     ),
     "C05": dict(
         title="persist/restore unobservable",
-        theorems={HISTORY: ["C05_persist_identity"]},
+        theorems={HISTORY: ["C05_persist_identity", "C18_history_extends"]},
         keys=None, offers="full",
         prof=dict(), hist=dict(p_persist=0.35, p_pause=0.05, p_rerun=0.2), monitor="C05",
         unproven=["the model has value semantics, so restore is the identity on it by construction; aliasing in the implementation is visible only to the correspondence check with persist ops and to the twin monitor"],
     ),
     "C06": dict(
         title="context = variables published by causal ancestors",
-        theorems={JOIN: ["C06_out_ctx_extends_in", "C06_delta_keys"], VALUES: ["C06_merge_later_wins"]},
+        theorems={JOIN: ["C06_delta_keys"], VALUES: ["C06_merge_later_wins", "C16_merge_preserves_values"], HISTORY: ["C18_context_fixed"]},
         keys=["contexts", "sequence", "staged", "output"], offers="full",
         prof=dict(p_publish=0.8, p_clash=0.4, p_items=0.05, p_retry=0.05), hist=dict(p_fail=0.15),
         monitor="C06", unproven=["C06_ctx_indices_exact (ancestor-exactness as a history invariant) not proved; search only"],
     ),
     "C07": dict(
         title="join runs once and only when satisfied",
-        theorems={JOIN: ["C07_ready_iff_satisfied", "C07_barrier_requirement", "C07_unreachable_fails"],
-                  NEXT: ["C01_offer_from_staged"]},
+        theorems={JOIN: ["C07_ready_iff_satisfied", "C07_barrier_requirement", "C07_unreachable_fails", "C07_check_statuses"], NEXT: ["C01_offer_from_staged"]},
         keys=["status", "staged", "errors", "sequence"], offers="ids",
         prof=dict(p_join=0.9, p_join_count=0.3, max_tasks=7), hist=dict(p_fail=0.3, p_cancel=0.03),
         monitor="C07", unproven=["C07_once (at most one start per satisfaction) not proved; count joins: known finding D2"],
     ),
     "C08": dict(
         title="outcome independent of completion order",
-        theorems={NEXT: ["C08_offers_sorted"]},
+        theorems={NEXT: ["C01_offer_from_staged"], JOIN: ["C19_inbound_status_perm"]},
         keys=["status", "sequence"], offers="ids",
         prof=dict(p_loop=0.0, p_retry=0.0, p_items=0.0, p_badexpr=0.0), hist=dict(fixed_outcomes=True, p_lifecycle=0.0, p_odd_terminal=0.0),
         monitor="C08", unproven=["order independence of whole runs (C08_routefree, C08_commute) is relational and not proved; search only"],
@@ -110,68 +103,64 @@ PROPS = {
     ),
     "C11": dict(
         title="expression errors contained",
-        theorems={ERRORS: ["C11_next_never_raises_expr", "C11_update_never_raises_expr",
-                           "C11_render_never_raises_expr", "C11_request_never_raises_expr"],
-                  STATUS: ["tbl_failed_request_total"], SITES: ["evalSites_guarded"]},
+        theorems={ERRORS: ["C11_next_never_raises_expr", "C11_update_never_raises_expr", "C11_render_never_raises_expr", "C11_request_never_raises_expr"], STATUS: ["tbl_failed_request_total"], SITES: ["evalSites_guarded", "evalSites_nonempty"]},
         keys=["status", "errors", "staged"], offers="ids",
         prof=dict(p_badexpr=0.8), hist=dict(p_pause=0.05, p_cancel=0.05), monitor="C11",
         unproven=["'recorded and failed' postcondition proved only as: an error entry is logged before the failed request (C11_*), not as a full postcondition"],
     ),
     "C12": dict(
         title="with-items: every item once, in order, within the limit",
-        theorems={ITEMS: ["C12_window_bound", "C12_window_unset_only", "C12_window_in_order",
-                          "C12_no_concurrency_all_unset", "C12_item_success_unique", "C12_completed_needs_dormant"]},
+        theorems={ITEMS: ["C12_window_bound", "C12_window_total", "C12_window_unset_only", "C12_window_in_order", "C12_no_concurrency_all_unset", "C12_item_success_unique", "C12_completed_needs_dormant"], NEXT: ["C09_no_offer_while_pausing_or_paused", "C10_no_offer_after_cancel"]},
         keys=["status", "staged", "sequence"], offers="full",
         prof=dict(p_items=0.9, max_tasks=3, p_retry=0.1), hist=dict(p_fail=0.2, p_pause=0.1, p_cancel=0.05),
         monitor="C12", unproven=["C12_all_offered (progress) not proved; result ordering is assembled by the provider"],
     ),
     "C13": dict(
         title="retry: bounded attempts, no transition from a retried attempt",
-        theorems={ITEMS: ["C13_retry_iff", "C13_retry_requires_tally_below_count", "C13_completed_rows"]},
+        theorems={ITEMS: ["C13_retry_iff", "C13_retry_requires_tally_below_count", "C13_completed_rows", "C13_retry_event_reopens"]},
         keys=["status", "staged", "sequence", "contexts"], offers="full",
         prof=dict(p_retry=0.8, max_tasks=4), hist=dict(p_fail=0.5, p_pause=0.05), monitor="C13",
         unproven=["C13_bound as a history invariant (tally <= count) not proved; single-step lemma only"],
     ),
     "C14": dict(
         title="composed graph is exactly the definition",
-        theorems={COMPOSE: ["C14_edges_sound", "C14_next_transitions_sorted"]},
+        theorems={COMPOSE: ["C14_edges_sound", "C14_next_transitions_exact"]},
         keys=[], offers=None, prof=dict(p_parallel_edge=0.3, max_tasks=7), hist=dict(), monitor="C14",
         compose_only=True, unproven=["C14_complete, C14_perm not proved; search only"],
     ),
     "C15": dict(
         title="accepted definitions are executable; broken references reported",
-        theorems={SITES: ["specFacts_expr_positions_inspected"], STATUS: ["tbl_task_targets_have_events", "tbl_item_targets_have_events"]},
+        theorems={SITES: ["specFacts_expr_positions_inspected", "specFacts_workflow_inspected"], STATUS: ["tbl_task_targets_have_events", "tbl_item_targets_have_events"], ERRORS: ["C11_update_never_raises_expr", "C11_next_never_raises_expr"]},
         keys=["status", "errors"], offers="ids", prof=dict(), hist=dict(p_pause=0.05, p_cancel=0.05, p_rerun=0.2),
         monitor="C15", unproven=["C15_no_internal_error (history) not proved; the inspectors are not modelled, only their inventories are generated"],
     ),
     "C16": dict(
         title="values flow unchanged; evaluation pure; internals hidden",
-        theorems={VALUES: ["C16_evaluate_plain_identity", "C16_merge_preserves_values", "C16_ctx_hides_internals"]},
+        theorems={VALUES: ["C16_evaluate_plain_identity", "C16_merge_preserves_values", "C16_ctx_hides_internals"], JOIN: ["C06_delta_keys"]},
         keys=["contexts", "output"], offers="full", prof=dict(p_publish=0.8), hist=dict(p_fail=0.1),
         monitor="C16", unproven=["library behaviour (ujson, YAQL, Jinja) is not modelled; search only"],
     ),
     "C17": dict(
         title="rerun re-executes only what was asked and converges",
-        theorems={RERUN: ["C17_reject_active", "C17_reject_unknown", "C17_accepted_resuming"]},
+        theorems={RERUN: ["C17_reject_active", "C17_reject_unknown", "C17_accepted_resuming", "C17_only_completed_accepted"], HISTORY: ["C18_extends_rerun"]},
         keys=None, offers="ids", prof=dict(p_items=0.15), hist=dict(p_fail=0.45, p_rerun=0.9), monitor="C17",
         unproven=["convergence to the clean twin is relational; search only"],
     ),
     "C18": dict(
         title="history is append-only; finished records never change",
-        theorems={HISTORY: ["C18_extends_request", "C18_extends_next", "C18_extends_report", "C18_extends_render",
-                            "C18_history_extends"]},
+        theorems={HISTORY: ["C18_extends_request", "C18_extends_next", "C18_extends_report", "C18_extends_render", "C18_extends_rerun", "C18_history_extends", "C18_record_core_fixed", "C18_context_fixed"], ITEMS: ["C13_completed_rows"]},
         keys=["contexts", "routes", "sequence"], offers=None, prof=dict(p_items=0.25, p_join=0.7, p_loop=0.3),
         hist=dict(p_fail=0.3, p_persist=0.15, p_rerun=0.3), monitor="C18", unproven=["freezing of status/next after the decisions not proved; search only"],
     ),
     "C19": dict(
         title="conducting deterministic; next is a pure query",
-        theorems={NEXT: ["C08_offers_sorted", "C19_next_no_status_change_when_not_running"], SITES: ["setSites_covered"]},
+        theorems={NEXT: ["C19_next_no_status_change_when_not_running", "C01_no_offer_unless_running_or_remediation"], SITES: ["setSites_covered"], JOIN: ["C19_inbound_status_perm"]},
         keys=None, offers="full", prof=dict(), hist=dict(p_next2=0.5, p_pause=0.05), monitor="C19",
         unproven=["C19_next_idempotent not proved; hash-seed independence is outside any model, multi-seed replay only"],
     ),
     "C20": dict(
         title="every shorthand means its long form",
-        theorems={PARAMS: ["C20_default_do", "C20_with_string"]},
+        theorems={PARAMS: ["C20_do_split"]},
         keys=None, offers="full", prof=dict(), hist=dict(), monitor="C20",
         unproven=["inline parameter scanner round trip not proved; search only"],
     ),
